@@ -6,7 +6,7 @@ method by method, to the clauses of the hand-written Ser.v."""
 import re
 
 from rustexpr import Untranslatable, find_fn
-from translate_schema import coq_str, split_top
+from translate_schema import coq_str, split_top, split_arms, block_after
 
 MAPERR = r'(?:\.map_err\(\|_\|Error::SerializeBufferFull\))'
 
@@ -731,4 +731,178 @@ def gen_ptr_code(src, attempt):
             stmts = p.block()
             return "Definition %s : list (list N) * list pstmt :=\n  ([%s], [%s])." % (coq, '; '.join(coq_str(x) for x in ps), '; '.join(stmts))
         attempt(out, '%s:Slice::%s' % (path.split('/')[-2], meth), one, coq)
+    return '\n'.join(out) + '\n'
+
+
+# ----------------------------------------------------------------------------------------
+# GenModifiers.v: the COBS and CRC modifier flavours (ser/flavors.rs, de/flavors.rs)
+
+def mod_steps(text, what):
+    """statements of a modifier method body -> step list; the last statement is the tail"""
+    out = []
+    stmts = split_stmts_keep(text)
+    for k, (s, semi) in enumerate(stmts):
+        last = (k == len(stmts) - 1)
+        m = re.match(r'^self\.flav\[(\w+)\]=(\w+)$', s)
+        if m:
+            out.append("MSet %s %s" % (coq_str(m.group(1)), coq_str(m.group(2))))
+            continue
+        m = re.match(r'^self\.flav\.try_push\((\w+)\)(\?)?$', s)
+        if m:
+            arg = "(MByteConst %s)" % m.group(1) if m.group(1).isdigit() else "(MByteVar %s)" % coq_str(m.group(1))
+            # a result that is neither propagated with `?` nor returned is dropped
+            out.append("MPush %s %s" % (arg, 'true' if (m.group(2) or (last and not semi)) else 'false'))
+            continue
+        if s == 'self.flav.finalize()' and last and not semi:
+            out.append("MInnerFinalize")
+            continue
+        m = re.match(r'^self\.digest\.update\(&\[(\w+)\]\)$', s)
+        if m:
+            out.append("MDigestUpdate1 %s" % coq_str(m.group(1)))
+            continue
+        m = re.match(r'^self\.digest\.update\((\w+)\)$', s)
+        if m:
+            out.append("MDigestUpdate %s" % coq_str(m.group(1)))
+            continue
+        m = re.match(r'^let(\w+)=self\.digest\.finalize\(\)$', s)
+        if m:
+            out.append("MLetCrc %s" % coq_str(m.group(1)))
+            continue
+        m = re.match(r'^for(\w+)in(\w+)\.to_le_bytes\(\)\{self\.flav\.try_push\((\w+)\)\?;\}$', s)
+        if m and m.group(1) == m.group(3):
+            out.append("MForLePush %s" % coq_str(m.group(2)))
+            continue
+        m = re.match(r'^let\((\w+),(\w+)\)=self\.cobs\.finalize\(\)$', s)
+        if m:
+            out.append("MLetCobsFinalize %s %s" % (coq_str(m.group(1)), coq_str(m.group(2))))
+            continue
+        if s == 'usePushResult::*':
+            continue
+        m = re.match(r'^matchself\.cobs\.push\((\w+)\)\{(.*)\}$', s)
+        if m:
+            arms = []
+            for arm in split_arms(m.group(2)):
+                am = re.match(r'^(?:PushResult::)?(\w+)\(\(?([\w,]+)\)?\)=>(.*)$', compact(arm), re.S)
+                if not am:
+                    raise Untranslatable("%s: arm `%s`" % (what, arm[:60]))
+                body = am.group(3).strip()
+                if body.startswith('{') and body.endswith('}'):
+                    body = body[1:-1]
+                binders = [b for b in am.group(2).split(',') if b]
+                arms.append("(%s, [%s], [%s])" % (coq_str(am.group(1)), '; '.join(coq_str(b) for b in binders), '; '.join(mod_steps(body, what))))
+            out.append("MMatchCobsPush %s [%s]" % (coq_str(m.group(1)), '; '.join(arms)))
+            continue
+        raise Untranslatable("%s: statement `%s`" % (what, s[:80]))
+    return out
+
+
+def split_stmts_keep(body):
+    """[(statement, ended_with_semicolon)]"""
+    out, depth, cur = [], 0, ''
+    for ch in body:
+        if ch in '([{':
+            depth += 1
+        elif ch in ')]}':
+            depth -= 1
+        if ch == ';' and depth == 0:
+            if cur.strip():
+                out.append((compact(cur), True))
+            cur = ''
+        else:
+            cur += ch
+            if ch == '}' and depth == 0 and cur.strip().startswith('for'):
+                out.append((compact(cur), True))        # a `for` block is a statement of its own
+                cur = ''
+    if cur.strip():
+        out.append((compact(cur), False))
+    return out
+
+
+DE_CRC_POP = r'^matchself\.flav\.pop\(\)\{Ok\((\w+)\)=>\{self\.digest\.update\(&\[(\w+)\]\);Ok\((\w+)\)\}(\w+)@Err\(_\)=>(\w+),\}$'
+DE_CRC_TAKE = r'^matchself\.flav\.try_take_n\((\w+)\)\{Ok\((\w+)\)=>\{self\.digest\.update\((\w+)\);Ok\((\w+)\)\}(\w+)@Err\(_\)=>(\w+),\}$'
+DE_CRC_FIN = (r'^matchself\.flav\.try_take_n\(core::mem::size_of::<\$int>\(\)\)\{Ok\((\w+)\)=>matchself\.flav\.finalize\(\)\{Ok\((\w+)\)=>\{'
+              r'let(\w+)=self\.digest\.finalize\(\);let(\w+)=(\w+)\.try_into\(\)\.map_err\(\|_\|Error::(\w+)\)\?;let(\w+)=<\$int>::from_le_bytes\((\w+)\);'
+              r'if(\w+)==(\w+)\{Ok\((\w+)\)\}else\{Err\(Error::(\w+)\)\}\}(\w+)@Err\(_\)=>(\w+),\},Err\((\w+)\)=>Err\((\w+)\),\}$')
+
+
+def gen_modifiers(src, attempt):
+    out = ["(* GENERATED by tools/translate.py from the Rust sources. Do not edit. *)",
+           "From PV Require Import Base ModDecl.", "Open Scope N_scope.", "",
+           "(* the COBS and CRC modifier flavours *)"]
+    ser = src('source/postcard/src/ser/flavors.rs')
+    de = src('source/postcard/src/de/flavors.rs')
+
+    def cobs():
+        m = re.search(r'impl<B>\s*Flavor\s+for\s+Cobs<B>', ser)
+        if not m:
+            raise Untranslatable("impl Flavor for Cobs<B> not found")
+        rows = []
+        for meth, coq in (('try_push', 'cobs_try_push'), ('finalize', 'cobs_finalize_steps')):
+            sig, body = find_fn(ser[m.end():], meth)
+            rows.append("Definition %s : list (list N) * list mstep :=\n  ([%s], [%s])." % (coq, '; '.join(coq_str(p) for p in params_of(sig)), '; '.join(mod_steps(body, 'ser/flavors.rs:Cobs::' + meth))))
+        sig, body = find_fn(ser, 'try_new')
+        if compact(body) != 'bee.try_push(0).map_err(|_|Error::SerializeBufferFull)?;Ok(Self{flav:bee,cobs:EncoderState::default(),})':
+            raise Untranslatable("Cobs::try_new is `%s`" % compact(body)[:120])
+        rows.append("Definition cobs_try_new_pushes_placeholder : bool := true.")
+        # which methods the impl defines (anything else is the trait's default)
+        blk = block_after(ser[m.start():], r'impl<B>\s*Flavor\s+for\s+Cobs<B>[^{]*')
+        rows.append("Definition cobs_methods : list (list N) := [%s]." % '; '.join(coq_str(x) for x in re.findall(r'\bfn\s+(\w+)', blk)))
+        return '\n'.join(rows)
+    attempt(out, 'ser/flavors.rs:Cobs', cobs, 'cobs_try_push')
+
+    def crc_ser():
+        i = ser.index('pub mod crc')
+        mac = ser[i:]
+        m = re.search(r'impl<\'a,\s*B>\s*Flavor\s+for\s+CrcModifier<\'a,\s*B,\s*\$int>', mac)
+        if not m:
+            raise Untranslatable("ser CrcModifier impl not found")
+        rows = []
+        for meth, coq in (('try_push', 'crc_try_push'), ('finalize', 'crc_finalize_steps')):
+            sig, body = find_fn(mac[m.end():], meth)
+            rows.append("Definition %s : list (list N) * list mstep :=\n  ([%s], [%s])." % (coq, '; '.join(coq_str(p) for p in params_of(sig)), '; '.join(mod_steps(body, 'ser/flavors.rs:CrcModifier::' + meth))))
+        widths = re.findall(r'impl_flavor!\((u\d+),', mac)
+        rows.append("Definition crc_ser_widths : list (list N) := [%s]." % '; '.join(coq_str(w) for w in widths))
+        blk = block_after(mac[m.start():], r"impl<'a,\s*B>\s*Flavor\s+for\s+CrcModifier<'a,\s*B,\s*\$int>[^{]*")
+        rows.append("Definition crc_ser_methods : list (list N) := [%s]." % '; '.join(coq_str(x) for x in re.findall(r'\bfn\s+(\w+)', blk)))
+        return '\n'.join(rows)
+    attempt(out, 'ser/flavors.rs:CrcModifier', crc_ser, 'crc_try_push')
+
+    def crc_de():
+        i = de.index('macro_rules! impl_flavor')
+        mac = de[i:]
+        sig, body = find_fn(mac, 'pop')
+        m = re.match(DE_CRC_POP, compact(body))
+        if not m or len({m.group(1), m.group(2), m.group(3)}) != 1 or m.group(4) != m.group(5):
+            raise Untranslatable("de CrcModifier::pop is `%s`" % compact(body)[:160])
+        sig, body = find_fn(mac, 'try_take_n')
+        m = re.match(DE_CRC_TAKE, compact(body))
+        if not m or len({m.group(2), m.group(3), m.group(4)}) != 1 or m.group(5) != m.group(6):
+            raise Untranslatable("de CrcModifier::try_take_n is `%s`" % compact(body)[:160])
+        sig, body = find_fn(mac, 'size_hint')
+        if compact(body) != 'self.flav.size_hint()':
+            raise Untranslatable("de CrcModifier::size_hint is `%s`" % compact(body)[:100])
+        sig, body = find_fn(mac, 'finalize')
+        m = re.match(DE_CRC_FIN, compact(body))
+        if not m:
+            raise Untranslatable("de CrcModifier::finalize is `%s`" % compact(body)[:200])
+        g = m.groups()
+        prev, rem, crc, leb, prev2, errenc, prevcrc, leb2, c1, c2, rem2, errcrc, e1, e2, e3, e4 = g
+        ok = (prev == prev2 and leb == leb2 and rem == rem2 and {c1, c2} == {crc, prevcrc} and e1 == e2 and e3 == e4)
+        if not ok:
+            raise Untranslatable("de CrcModifier::finalize: bindings do not line up")
+        widths = re.findall(r'impl_flavor!\((u\d+),', mac)
+        # the two entry points: decode through the modifier, then finalize (which checks the checksum
+        # that follows the consumed bytes)
+        sig, body = find_fn(mac, '$from_bytes')
+        if compact(body) != 'letflav=CrcModifier::new(Slice::new(s),digest);letmutdeserializer=Deserializer::from_flavor(flav);letr=T::deserialize(&mutdeserializer)?;let_=deserializer.finalize()?;Ok(r)':
+            raise Untranslatable("de crc $from_bytes is `%s`" % compact(body)[:160])
+        sig, body = find_fn(mac, '$take_from_bytes')
+        if compact(body) != 'letflav=CrcModifier::new(Slice::new(s),digest);letmutdeserializer=Deserializer::from_flavor(flav);lett=T::deserialize(&mutdeserializer)?;Ok((t,deserializer.finalize()?))':
+            raise Untranslatable("de crc $take_from_bytes is `%s`" % compact(body)[:160])
+        return ("Definition crc_de_pop_updates_digest_with_the_byte : bool := true.\n"
+                "Definition crc_de_entry_points_finalize_through_the_modifier : bool := true.\n"
+                "Definition crc_de_take_updates_digest_with_the_bytes : bool := true.\n"
+                "Definition crc_de_finalize : error * error := (%s, %s).   (* checksum bytes missing / checksum mismatch *)\n"
+                "Definition crc_de_widths : list (list N) := [%s]." % (errenc, errcrc, '; '.join(coq_str(w) for w in widths)))
+    attempt(out, 'de/flavors.rs:CrcModifier', crc_de, 'crc_de_finalize')
     return '\n'.join(out) + '\n'
